@@ -115,6 +115,7 @@ def hexReorder (k : Kernel) (hfs : List Nat) : Option (List Nat) :=
 def hexAddCell (k : Kernel) (hfs : List Nat) (chk : Bool) : Kernel × Option Nat :=
   if hfs.length != 6 then (k, none)
   else if hfs.any (fun hf => (k.faceAt (eOf hf)).length != 4) then (k, none)
+  else if k.spanVertCount hfs != 8 then (k, none)        -- 7b999c9: eight distinct vertices
   else if !chk then k.addCell hfs false
   else if k.hexCheckOrdering hfs then k.addCell hfs true
   else match k.hexReorder hfs with
